@@ -286,7 +286,7 @@ def _stubs():
 
 
 COMMON_ASSUMPTIONS = [
-    'handlers and bus code take zero CPU time: timers are never late; equal deadlines fire in insertion order; one thread',
+    'library code takes zero CPU time and timers are not late, except where a template says otherwise (block: synchronous user work of symbolic duration; sleep_steps: a solver-chosen number of loop iterations at one instant; late_timer: one timer noticed k iterations late; executor_delay); equal deadlines fire in insertion order; one thread',
     'time is real-valued: float rounding of durations is outside the claim',
     'hang verdict = waiter still blocked at the virtual horizon printed per job',
     'trusted: z3 5.1.0, CPython 3.12, stock asyncio Task/Future/Queue/Event/Semaphore/timeouts, VLoop, the proxy layer, the monitors',
